@@ -133,6 +133,22 @@ impl ConnOutcome {
             if let Some(k) = e.detail.get("kind").and_then(|k| k.as_str()) {
                 h.write_str(k);
             }
+            // what the services answered is part of the interleaving's identity
+            if e.kind == "done" && e.actor.starts_with("svc:") {
+                if let Some(r) = e.detail.get("result") {
+                    h.write_str(&r.to_string());
+                }
+                if let Some(r) = e.detail.get("ok") {
+                    h.write_str(&r.to_string());
+                }
+            }
+        }
+        for p in &self.view.packets {
+            match p.kind.as_str() {
+                "EncryptionRequest" => h.write_str(&p.fields["should_authenticate"].to_string()),
+                "Disconnect" | "Transfer" => h.write_str(&p.fields.to_string()),
+                _ => {}
+            }
         }
         h.write_str(&self.result);
         h.0
